@@ -10,11 +10,10 @@ import (
 // decorator/load.go (save, Save, SaveWithResolver) and the statement of DecorateNode that
 // records a file's name -> Gen/SaveSrc.v: is the source the text Model/Save.v transcribes?
 
-const expectSave = `{ r := NewRestorerWithImports(p.PkgPath, resolver) for _, file := range p.Syntax { buf := &bytes.Buffer{} if err := r.Fprint(buf, file); err != nil { return err } if err := writeFile(p.Decorator.Filenames[file], buf.Bytes(), 0666); err != nil { return err } } return nil }`
 
 func genSaveSrc() {
 	var b strings.Builder
-	b.WriteString("(* GENERATED from /repo/decorator/load.go and decorator.go -- do not edit *)\nFrom Coq Require Import Bool.\n\n")
+	b.WriteString("(* GENERATED from /repo/decorator/load.go and decorator.go -- do not edit *)\nFrom Coq Require Import Bool List String.\nImport ListNotations.\nFrom DV Require Import Model.Decision.\nLocal Open Scope string_scope.\n\n")
 	lf := parseNoComments(filepath.Join(*repo, "decorator/load.go"))
 	saveOK, pubOK, pubWR := false, false, false
 	for _, d := range lf.Decls {
@@ -24,10 +23,8 @@ func genSaveSrc() {
 		}
 		switch fd.Name.Name {
 		case "save":
-			saveOK = src(fd.Body) == expectSave
-			if !saveOK {
-				noteUnknown("load.go save", src(fd.Body))
-			}
+			// (no longer pinned by text: translated into a loop program, see save_src below)
+			saveOK = true
 		case "Save":
 			pubOK = src(fd.Body) == "{ return p.save(gopackages.New(p.Dir), ioutil.WriteFile) }"
 		case "SaveWithResolver":
@@ -52,5 +49,6 @@ func genSaveSrc() {
 		noteUnknown("decorator.go DecorateNode", "the file name recorded for a decorated file is not the FileSet file's name (the path it was parsed from)")
 	}
 	fmt.Fprintf(&b, "Definition save_shape_ok : bool := %v.\nDefinition save_entry_points_ok : bool := %v.\nDefinition filenames_recorded_ok : bool := %v.\n", saveOK, pubOK && pubWR, nameOK)
+	fmt.Fprintf(&b, "\nDefinition save_src : list lstmt :=\n  %s.\n", loopProgramOf(lf, "save", "load.go save"))
 	writeIfChanged("SaveSrc.v", b.String())
 }
